@@ -20,7 +20,9 @@ N1Canon(op, j, u) == (u < 2 => (op = 1 /\ j = 1))
 
 \* conditions for the logic family, incl. one that fails unless short-circuited away
 Conds == << BoolL(TRUE), BoolL(FALSE), Bin("<", IntL(1), IntL(2)), Bin("==", IntL(2), IntL(3)), Bin("==", Bin("/", IntL(1), IntL(0)), IntL(1)),
-            Bin(">=", FloatL(5, 2), IntL(2)), Not(BoolL(FALSE)), Bin("!=", StrL("a"), StrL("b")) >>
+            Bin(">=", FloatL(5, 2), IntL(2)), Not(BoolL(FALSE)), Bin("!=", StrL("a"), StrL("b")),
+            \* operands that decide without being booleans, and one that fails whatever it is compared with
+            IntL(0), IntL(2), StrL(""), StrL("a"), Bin("-", IntL(1), IntL(1)), FloatL(1, 2), Bin("%", IntL(1), IntL(0)) >>
 
 VARIABLES tree, go
 Init ==
